@@ -656,6 +656,10 @@ type DTXMismatch struct {
 	Expected  []string
 }
 
+// leanAfter: rows beyond this many keep only their outcome unless they
+// disagree with the oracle or are undecided.
+const leanAfter = 20000
+
 func runDTX(c *Ctx, spec DTXSpec) *DTXResult {
 	res := &DTXResult{}
 	if spec.MaxRuns == 0 {
@@ -701,6 +705,7 @@ func runDTX(c *Ctx, spec DTXSpec) *DTXResult {
 		}
 		res.Runs++
 		res.Leaves = append(res.Leaves, leaf)
+		nMis := len(res.Mismatches)
 		if leaf.Undecided != "" {
 			res.Undecided = append(res.Undecided, leaf)
 		} else if spec.Oracle != nil || spec.Check != nil {
@@ -761,6 +766,12 @@ func runDTX(c *Ctx, spec DTXSpec) *DTXResult {
 			}
 		}
 		script = ch.next()
+		// very large tables: rows that agree with the oracle keep only their
+		// outcome (the valuations, traces and choosers of millions of rows
+		// are what exhausts the machine's memory)
+		if res.Runs > leanAfter && leaf.Undecided == "" && len(res.Mismatches) == nMis {
+			leaf.Valuation, leaf.Trace, leaf.ch = nil, nil, nil
+		}
 		if script == nil {
 			break
 		}
@@ -789,8 +800,12 @@ func reportDTX(c *Ctx, r *RuleResult, spec DTXSpec, res *DTXResult, keyPrefix st
 	}
 	r.Obligations += res.Completions
 	r.Discharged += res.Completions - len(res.Mismatches)
-	for i, l := range res.Leaves {
-		if i%maxInt(1, len(res.Leaves)/6) == 0 {
+	nFull := len(res.Leaves)
+	if nFull > leanAfter {
+		nFull = leanAfter
+	}
+	for i, l := range res.Leaves[:nFull] {
+		if i%maxInt(1, nFull/6) == 0 {
 			r.Sample(map[string]interface{}{"table": spec.Name, "valuation": valuationString(l.Valuation), "outcome": l.Outcome, "effects": effectStrings(l.Trace)})
 		}
 	}
